@@ -18,6 +18,8 @@ LEVEL = "other"
 def run(chk):
     cfgs = ["base", "z"]
     chk.configs = cfgs
+    chk.rule("THRESHOLD.bisector", "the length below which NormalizeVector gives up (AlmostZero's epsilon) is not above the shortest bisector sum DoSquare can see, "
+             "sqrt(2 - 2C) with C the cosine above which OffsetPoint sends a join to DoMiter - both literals read from the code")
     chk.rule("OFFSET.cleanup", "clean-up union: Union with Negative iff paths reversed else Positive, into the tree iff requested, "
              "ReverseSolution(reverse_solution_ != paths_reversed), PreserveCollinear(preserve_collinear_) - all 16 cells")
     chk.rule("LOOP", "nothing written while offsetting one group is read while offsetting the next (several groups in one ClipperOffset)")
@@ -44,6 +46,7 @@ def run(chk):
         from ..engines import e14_poly as e14
         e14.rule_offset(db, chk, cfg)
         e12.join_dispatch_table(db, chk, cfg)
+        e12.bisector_threshold_rule(db, chk, cfg)
         # the orientation-corrected delta: only the functions that derive group_delta_ read the caller's delta_
         rec = db.record("ClipperOffset")
         fid = [fd["id"] for fd in rec.fields if fd.get("name") == "delta_"]
